@@ -568,6 +568,49 @@ func TestVerifC01Listeners(t *testing.T) {
 			}
 		}()
 	}
+	// DoQ: many VALID queries on one connection, more than the listener's stream limit, by a client that ends each stream only after
+	// it has read the answer (the FIN is not in the frame that carries the query): every one is answered - the listener finishes
+	// both directions of an answered stream, so its credit comes back
+	if a := addrs["quic"]; a != "" && alive() {
+		func() {
+			ctx, cancel := context.WithTimeout(context.Background(), 90*time.Second)
+			defer cancel()
+			conn, err := quic.DialAddr(ctx, a, &tls.Config{InsecureSkipVerify: true, NextProtos: []string{"doq"}}, &quic.Config{})
+			if err != nil {
+				rep.Note("quic many-valid-queries phase skipped: " + err.Error())
+				return
+			}
+			defer conn.CloseWithError(0, "")
+			desc := "quic: 130 valid queries on one connection, each stream closed by the client after it has read the answer"
+			rep.Eval(desc)
+			for i := 0; i < 130; i++ {
+				octx, ocancel := context.WithTimeout(ctx, 10*time.Second)
+				st, err := conn.OpenStreamSync(octx)
+				ocancel()
+				ok := false
+				if err == nil {
+					st.SetDeadline(time.Now().Add(10 * time.Second))
+					st.Write(refdns.Frame(valid(0)))
+					hdr := make([]byte, 2)
+					if _, e := io.ReadFull(st, hdr); e == nil {
+						body := make([]byte, int(hdr[0])<<8|int(hdr[1]))
+						if _, e := io.ReadFull(st, body); e == nil {
+							ok = okResp(body, 0)
+						}
+					}
+					st.Close()
+				}
+				if !ok {
+					if !alive() {
+						died("quic", desc)
+						return
+					}
+					rep.Violate("C01:listener:quic:stopped-serving:many-valid-queries", fmt.Sprintf("valid query #%d on one connection is not answered (open stream error: %v): answered streams are not retired", i+1, err), nil)
+					return
+				}
+			}
+		}()
+	}
 	// DoQ: streams whose length prefix announces more octets than are ever sent, left open by the client (no FIN, no reset), more than
 	// the listener's stream limit: the listener gives each up after its read timeout and hands the stream credit back, so further
 	// streams - and a valid query - still get through on the same connection
